@@ -3,6 +3,7 @@ package main
 
 import (
 	"errors"
+	"strings"
 
 	"verif/gen/chaingen"
 	"verif/mon"
@@ -32,12 +33,14 @@ type driver struct {
 	g   *chaingen.Gen
 	s   *sim.Sim
 	fam string
+	// gates: activation heights of the height-gated family (nil otherwise)
+	gates *gates
 }
 
 // candidate builds recipe rc on parent; returns nil if the recipe does not apply.
 func (dv *driver) candidate(rc *recipe, parent *refchain.Block) *refchain.Block {
 	applied := false
-	x := &ctx{r: dv.r, g: dv.g, now: dv.s.N.Clock.Now()}
+	x := &ctx{r: dv.r, g: dv.g, now: dv.s.N.Clock.Now(), gates: dv.gates}
 	if parent.ChainValid() {
 		x.coins = dv.g.Mature(dv.g.Wallet(parent), parent.Height+1)
 	}
@@ -45,6 +48,9 @@ func (dv *driver) candidate(rc *recipe, parent *refchain.Block) *refchain.Block 
 		if rc.apply(x, d) {
 			applied = true
 			d.Label, d.Rule = rc.label, rc.rule
+			if x.ov {
+				d.Label, d.Rule = x.ovLabel, x.ovRule
+			}
 		}
 	}})
 	if !applied {
@@ -76,6 +82,12 @@ func (dv *driver) template(b *refchain.Block) {
 
 func (dv *driver) run(rc *recipe, c int) bool {
 	s, g, r := dv.s, dv.g, dv.r
+	var cand *refchain.Block
+	// where a child inherits its parent's bits (retargeting families) no descendant of a candidate with an
+	// out-of-range target can be built: such candidates are only offered at the tip
+	if strings.HasPrefix(rc.name, "pow:bits-") && !g.P.PoWNoRetargeting {
+		c = ctxTip
+	}
 	switch c {
 	case ctxTip, ctxAfterRestart:
 		if c == ctxAfterRestart {
@@ -86,12 +98,13 @@ func (dv *driver) run(rc *recipe, c int) bool {
 			return false
 		}
 		b.Name = rc.name
+		cand = b
 		if r.Bool() {
 			dv.template(b)
 		}
 		s.DeliverBlock(b)
 		// a descendant on top of an invalid candidate must never be connected either
-		if b.Label != refchain.Valid && r.Chance(1, 3) {
+		if b.Label != refchain.Valid && r.Chance(1, 3) && !(strings.HasPrefix(rc.name, "pow:bits-") && !g.P.PoWNoRetargeting) {
 			d := g.Block(r, b, chaingen.BlockOpts{NTx: 0})
 			s.DeliverBlock(d)
 		}
@@ -104,6 +117,7 @@ func (dv *driver) run(rc *recipe, c int) bool {
 			return false
 		}
 		b.Name = rc.name
+		cand = b
 		s.DeliverBlock(b)
 		d := g.Block(r, b, chaingen.BlockOpts{NTx: 0})
 		s.DeliverBlock(d)
@@ -121,6 +135,7 @@ func (dv *driver) run(rc *recipe, c int) bool {
 			return false
 		}
 		b.Name = rc.name
+		cand = b
 		d := g.Block(r, b, chaingen.BlockOpts{NTx: 0})
 		e := g.Block(r, d, chaingen.BlockOpts{NTx: 0})
 		s.DeliverBlock(e)
@@ -132,6 +147,7 @@ func (dv *driver) run(rc *recipe, c int) bool {
 			return false
 		}
 		b.Name = rc.name
+		cand = b
 		d := g.Block(r, b, chaingen.BlockOpts{NTx: 0})
 		s.DeliverHeader(b)
 		s.DeliverHeader(d)
@@ -139,10 +155,18 @@ func (dv *driver) run(rc *recipe, c int) bool {
 		s.DeliverBlock(b)
 	}
 	pol := "reject"
-	if rc.label == refchain.Valid {
+	if cand.Label == refchain.Valid {
 		pol = "accept"
 	}
 	dv.k.Count("rule."+rc.name+"."+pol, 1)
+	if rc.gate != nil {
+		switch gh := rc.gate(dv.gates); cand.Height {
+		case gh - 1:
+			dv.k.Count("gate."+rc.name+".last-before", 1)
+		case gh:
+			dv.k.Count("gate."+rc.name+".first-at", 1)
+		}
+	}
 	dv.k.Count("ctx."+ctxNames[c], 1)
 	dv.k.Eval(mon.Sig("cand", rc.name, c, dv.fam), true)
 	return true
@@ -187,15 +211,27 @@ func (dv *driver) cve() {
 
 func runCase(k *mon.Case) {
 	r := k.Rand
-	fam := []string{node.FamRegtest, node.FamRegtest, node.FamVarWork, "halving"}[r.Intn(4)]
+	fam := []string{node.FamRegtest, node.FamRegtest, node.FamVarWork, "halving", "gates", "gates", "bip94"}[r.Intn(7)]
 	var p = node.NewParams(node.FamRegtest)
 	gfam := node.FamRegtest
+	var gt *gates
 	switch fam {
 	case node.FamVarWork:
 		p = node.NewParams(node.FamVarWork)
 		gfam = node.FamVarWork
 	case "halving":
 		p.SubsidyReductionInterval = 20
+	case "gates":
+		// BIP34 / BIP66 / BIP65 / CSV become active at four distinct heights shortly above the base chain
+		p = node.NewParams(node.FamPreFork)
+		gfam = node.FamPreFork
+		hs := r.Perm(14)
+		gt = &gates{bip34: int32(16 + hs[0]), bip66: int32(16 + hs[1]), bip65: int32(16 + hs[2]), csv: int32(16 + hs[3])}
+		gatesParams(p, *gt)
+	case "bip94":
+		p = node.NewParams(node.FamRetarget)
+		p.EnforceBIP94 = true
+		gfam = node.FamRetarget
 	}
 	g := chaingen.New(p, gfam, r)
 	g.MaxTx = 4
@@ -207,11 +243,14 @@ func runCase(k *mon.Case) {
 	defer s.Destroy()
 	g.ClockNow = s.N.Clock.Now()
 	s.CheckUtxo = r.Chance(1, 4)
-	dv := &driver{k: k, r: r, g: g, s: s, fam: fam}
-	k.Desc(map[string]any{"family": fam})
+	dv := &driver{k: k, r: r, g: g, s: s, fam: fam, gates: gt}
+	k.Desc(map[string]any{"family": fam, "gates": gt})
 	base := 12 + r.Intn(10)
 	if fam == "halving" {
 		base = 18
+	}
+	if fam == "gates" {
+		base = 10 + r.Intn(5)
 	}
 	tip := g.Tree.Genesis
 	for i := 0; i < base; i++ {
@@ -220,16 +259,56 @@ func runCase(k *mon.Case) {
 	}
 	rs := catalogue()
 	n := 10 + r.Intn(8)
-	for i := 0; i < n && !s.Failed; i++ {
-		rc := &rs[r.Intn(len(rs))]
-		if fam == "halving" && s.Tip.Height == 19 {
-			for j := range rs {
-				if rs[j].name == "coinbase:pre-halving-subsidy" {
-					rc = &rs[j]
-				}
+	switch fam {
+	case "gates":
+		rs = gatesCatalogue()
+		n = 70
+	case "bip94":
+		rs = append(rs, timewarpCatalogue()...)
+		n = 16 + r.Intn(8)
+	}
+	byName := func(name string) *recipe {
+		for j := range rs {
+			if rs[j].name == name {
+				return &rs[j]
 			}
 		}
+		panic("no recipe " + name)
+	}
+	for i := 0; i < n && !s.Failed; i++ {
+		rc := &rs[r.Intn(len(rs))]
 		c := r.Intn(numCtx)
+		next := s.Tip.Height + 1
+		if c == ctxSideThenHeavier {
+			next = s.Tip.Height
+		}
+		switch fam {
+		case "halving":
+			if s.Tip.Height == 19 {
+				rc = byName("coinbase:pre-halving-subsidy")
+			}
+		case "gates":
+			if next > max(gt.bip34, gt.bip66, gt.bip65, gt.csv)+2 {
+				i = n
+				continue
+			}
+			// at the last height before a gate and at the gate itself prefer the recipes that flip there
+			var near []*recipe
+			for j := range rs {
+				if rs[j].gate != nil {
+					if gh := rs[j].gate(gt); next == gh-1 || next == gh {
+						near = append(near, &rs[j])
+					}
+				}
+			}
+			if len(near) > 0 && r.Chance(4, 5) {
+				rc = near[r.Intn(len(near))]
+			}
+		case "bip94":
+			if next%8 == 0 && r.Chance(2, 3) {
+				rc = byName([]string{"bip94:first-of-interval-600s-back", "bip94:first-of-interval-601s-back"}[r.Intn(2)])
+			}
+		}
 		if !dv.run(rc, c) {
 			k.Count("recipe.not_applicable", 1)
 		}
@@ -242,7 +321,7 @@ func runCase(k *mon.Case) {
 			dv.cve()
 		}
 		// keep the chain growing with ordinary blocks so that coins mature and later candidates have material
-		if r.Chance(1, 2) {
+		if r.Chance(1, 2) && !(fam == "gates" && r.Chance(2, 3)) {
 			nb := g.Block(r, s.Tip, chaingen.BlockOpts{NTx: -1, Easy: r.Bool()})
 			s.DeliverBlock(nb)
 		}
@@ -259,13 +338,24 @@ func main() {
 			"by descendants = the reorg path, children delivered first, after restart, headers first); the verdict is the generator's label; the active chain, utxo set and notifications are " +
 			"checked after every delivery; distinct = (recipe, context, family)")
 		c.Family("rules", c.N(700, 30000), runCase)
-		rs := catalogue()
+		rs := append(catalogue(), timewarpCatalogue()...)
 		for _, rc := range rs {
 			pol := "reject"
 			if rc.label == refchain.Valid {
 				pol = "accept"
 			}
 			c.Require("rule."+rc.name+"."+pol, 3)
+		}
+		for _, rc := range gatesCatalogue() {
+			if rc.gate != nil {
+				// a height-gated rule must have been probed on both sides of its activation height
+				c.Require("gate."+rc.name+".last-before", 3)
+				c.Require("gate."+rc.name+".first-at", 3)
+			}
+		}
+		for _, n := range []string{"gate:version-4.accept", "gate:bip30-overwrite-unspent.reject", "gate:bip30-recreate-spent.accept",
+			"gate:base-size-1000000.accept", "gate:base-size-1000001.reject"} {
+			c.Require("rule."+n, 2)
 		}
 		for _, n := range ctxNames {
 			c.Require("ctx."+n, 100)
